@@ -1,7 +1,7 @@
 """C10 Binary frames decode to what was encoded under any fragmentation."""
 import re
 
-from mirlib import AnchorMissing, describe_call, describe_operand, describe_place, describe_rvalue, dom_guards, guards, op_place, _suffix_match
+from mirlib import AnchorMissing, edge_label, switch_desc, describe_call, describe_operand, describe_place, describe_rvalue, dom_guards, guards, op_place, _suffix_match
 from rules.common import aggregates, owner_def, panic_sites, where
 
 META = {
@@ -11,7 +11,7 @@ META = {
         "state is rewritten before returning; R2 tag tables: per codec pair, the tag an encoder writes for a variant is a tag the decoder maps "
         "back to that variant, and unknown tags end in Err; R4 tainted length arithmetic: a 64-bit length read from the wire never enters an "
         "unchecked +,* or - nor a split/advance length without a dominating bound (a corrupt length must give an error, not a panic); "
-        "R5 panic audit of the decode bodies; R6 discard accounting: when a decoder drops the buffered part of a body it measures the dropped size before clearing the buffer."),
+        "R5 panic audit of the decode bodies; R6 discard accounting: when a decoder drops the buffered part of a body it measures the dropped size before clearing the buffer; R7 bytes split off for the following frames are put back on every exit; R8 a delegating decoder waits for a header only at a frame boundary."),
     "does_not_decide": "equality of decoded and encoded messages for all values (bodies are Recon, C09); silently wrong messages produced by mutated valid streams inside a body",
 }
 
@@ -390,6 +390,68 @@ def run(ctx):
                         "src.%s() at line %d is evaluated after src.clear() (always 0) and used in arithmetic: the bytes just dropped are not accounted for, so the decoder discards too much of the following frames" % (stale[0].name, stale[0].line) if stale else "")
         if n < 4:
             raise AnchorMissing("expected >= 4 src.clear() sites in decoders, found %d" % n)
+
+    with ctx.rule("C10.R7", "T1", "bytes split off for the following frames are always put back", floor=2) as r:
+        # `let rem = src.split_off(n)` temporarily removes the bytes of the following frames; every way out of the
+        # function has to restore them (src.unsplit(rem) / *src = rem), unless the remainder is empty by construction
+        # (n = min(A, src.remaining()) and the path is guarded by A > src.remaining()).
+        n = 0
+        for cn in CRATES:
+            c = ctx.crate(cn)
+            for b in c.all_bodies():
+                so = [x for x in b.calls if x.name == "split_off" and "bytes" in x.defpath and x.args and src_root(b, x.args[0], through_calls=False) in range(1, b.argc + 1)]
+                for k_, x in enumerate(sorted(so, key=lambda y: y.line)):
+                    n += 1
+                    ctx.saw(b)
+                    root = src_root(b, x.args[0], through_calls=False)
+                    tag = (b.meta.get("self_adt") or b.meta.get("name") or "?").split("::")[-1]
+                    restore = {y.block for y in b.calls if y.name == "unsplit" and y.args and src_root(b, y.args[0], through_calls=False) == root
+                               and any(s_[0] == "call" and s_[1] is x for s_ in b.sources(y.args[1]))}
+                    for i, j, p, rv, line in b.assigns():
+                        if p[1] == ["*"] and b.resolve(p).root == root and not b.resolve(p).fields and any(s_[0] == "call" and s_[1] is x for s_ in (b.sources(rv[1]) if rv[0] == "use" else [])):
+                            restore.add(i)
+                    arg = describe_operand(b, x.args[1])
+                    discharge = []
+                    m = re.match(r"^min\((.*), remaining\(src\)\)$", arg)
+                    if m:
+                        a_ = m.group(1)
+                        for sb in range(b.n):
+                            if b.is_cleanup(sb) or b.term(sb)["k"] != "switch":
+                                continue
+                            d = switch_desc(b, sb)
+                            for t_ in b.succ[sb]:
+                                l = {"0": "false", "1": "true"}.get(edge_label(b, sb, t_), edge_label(b, sb, t_))
+                                if (d == "Le(%s, remaining(src))" % a_ and l == "false") or (d == "Gt(%s, remaining(src))" % a_ and l == "true") or \
+                                   (d == "Lt(remaining(src), %s)" % a_ and l == "true") or (d == "Ge(remaining(src), %s)" % a_ and l == "false"):
+                                    discharge.append((sb, t_))
+                    ok, wit = b.must_pass_edges([x.target], restore, discharge)
+                    r.check(ok and bool(restore), "%s/split_off#%d/remainder-restored-on-every-exit" % (tag, k_), x.loc(),
+                            "every exit after split_off passes unsplit (%d restore sites, %d empty-remainder edges)" % (len(restore), len(discharge)),
+                            "the bytes split off at line %d (the following frames) are not put back on the path %s: they are silently dropped" % (x.line, [b.blocks[q]["t"].get("line") for q in (wit or [])][:10]))
+        if n < 2:
+            raise AnchorMissing("expected >= 2 split_off sites (RequestMessageDecoder, consume_bounded), found %d" % n)
+
+    with ctx.rule("C10.R8", "T6", "a delegating decoder waits for header bytes only at a frame boundary", floor=10) as r:
+        # A decoder that hands the body to an inner (stateful) decoder may return Ok(None) "not enough bytes for a header"
+        # only when it knows it is at the start of a frame: the return has to be control dependent on its own state
+        # (or on the inner decoder's boundary predicate), not only on the amount of buffered input.
+        for c, b in decs:
+            tag = (b.meta.get("self_adt") or "?").split("::")[-1]
+            inner = [x for x in b.calls if x.via_name in ("decode", "decode_eof") and x.args and src_root(b, x.args[0]) == 1]
+            if not inner:
+                continue
+            nones = [(i, line) for i, j, p, rv, line in b.assigns() if describe_rvalue(b, rv) == "Result::Ok(Option::None())"]
+            for k_, (nb, line) in enumerate(sorted(set(nones), key=lambda y: y[1])):
+                if any(b.reaches(x.block, {nb}) for x in inner):
+                    continue
+                g = dom_guards(b, nb)
+                own = [d for d, l, _ in g if "self" in d and "src" not in d]
+                size = [d for d, l, _ in g if "remaining(src)" in d or "len(src)" in d]
+                if not size:
+                    continue
+                ctx.saw(b)
+                r.check(bool(own), "%s/early-none#%d/only-at-frame-boundary" % (tag, k_), b.loc(line), "waiting for header bytes is conditional on the decoder state (%s)" % own[0][:50] if own else "",
+                        "Ok(None) is returned because src holds too few bytes for a header, whatever the state of the inner decoder: when the inner decoder is part way through a body, the rest of that body is never passed on if it is shorter than a header (the frame is only completed when a later frame arrives)")
 
 
 def _short(d):
